@@ -19,5 +19,73 @@ pub fn run(ctx: &mut Ctx) {
         max_states_per_level: ctx.pick(60_000, 400_000),
     };
     explore(ctx, &cfg);
+    if matches!(ctx.mode, crate::core::Mode::Run) {
+        miri_cover(ctx);
+    }
     ctx.require_classes("bfs.depth1", &["transition:inline->heap", "transition:heap->inline", "transition:heap-reallocated", "new-state", "pruned:precondition(div by 0 / unsigned underflow)"]);
+}
+
+/// Language-level monitor on enumerated executions: the transition cover written by the explorer
+/// (one shortest path per (operation, storage transition) class) is replayed by `dvm` under Miri
+/// (undefined behaviour, out-of-bounds reads, invalid values, leaks).  Quick: the first 250 paths.
+fn miri_cover(ctx: &mut Ctx) {
+    let root = crate::core::verif_root();
+    let cover = format!("{}/replays/C17-transition-cover.txt", root);
+    let harness = std::env::current_exe().ok().and_then(|e| e.parent().and_then(|p| p.parent()).and_then(|p| p.parent()).map(|p| p.to_path_buf()));
+    let harness = match harness {
+        Some(h) if h.join("dvm").exists() => h,
+        _ => {
+            ctx.machinery("cannot locate the harness workspace for the Miri replayer");
+            return;
+        }
+    };
+    let max = ctx.pick(250usize, usize::MAX);
+    ctx.case_horizon = std::time::Duration::from_secs(ctx.pick(900, 7200));
+    ctx.assume("Miri (nightly) interprets the replayed paths with leak checking on; integer-to-pointer casts in dashu make its provenance checks permissive");
+    let mach: std::sync::Mutex<Option<String>> = std::sync::Mutex::new(None);
+    let machr = &mach;
+    ctx.sweep("miri.transition-cover", 1, |_, rec| {
+        let out = std::process::Command::new("cargo")
+            .args(["+nightly", "miri", "run", "--offline", "-q", "-p", "dvm", "--"])
+            .arg(&cover)
+            .arg(if max == usize::MAX { "1000000".to_string() } else { max.to_string() })
+            .current_dir(&harness)
+            .env("MIRIFLAGS", "-Zmiri-disable-isolation")
+            .env("CARGO_TARGET_DIR", harness.join("target-miri"))
+            .env("CARGO_NET_OFFLINE", "true")
+            .env_remove("RUSTFLAGS")
+            .output();
+        let out = match out {
+            Ok(o) => o,
+            Err(e) => {
+                *machr.lock().unwrap() = Some(format!("cannot start cargo miri: {}", e));
+                return;
+            }
+        };
+        let (so, se) = (String::from_utf8_lossy(&out.stdout).to_string(), String::from_utf8_lossy(&out.stderr).to_string());
+        let replayed = so.lines().filter(|l| l.starts_with("dvm: at ")).count() as u64;
+        rec.steps(replayed);
+        for _ in 0..replayed {
+            rec.nontrivial();
+        }
+        if out.status.success() && so.contains("dvm: replayed") {
+            rec.hit("miri-clean");
+            rec.sample(|| format!("{} paths of the transition cover interpreted by Miri without a report", replayed));
+            return;
+        }
+        let err = se.lines().find(|l| l.starts_with("error")).unwrap_or("").to_string();
+        if err.is_empty() || err.contains("could not compile") || se.contains("is not installed") {
+            *machr.lock().unwrap() = Some(format!("Miri run failed without a verdict: {}", crate::core::trunc(&se, 600)));
+            return;
+        }
+        let last = so.lines().filter(|l| l.starts_with("dvm: at ")).last().unwrap_or("dvm: at ?").trim_start_matches("dvm: at ").to_string();
+        let kind: String = err.chars().filter(|c| !c.is_ascii_digit()).take(70).collect();
+        rec.replay_as("path", last.clone());
+        rec.fail(format!("C17|miri|{}", kind.replace('|', "/")), format!("transition-cover path {} (indices into the {} alphabet)", last, if max == usize::MAX { "full" } else { "quick" }), crate::core::trunc(&se[se.find("error").unwrap_or(0)..], 1200), "no undefined behaviour, invalid value, out-of-bounds access or leak");
+    });
+    if let Some(m) = mach.into_inner().unwrap() {
+        ctx.machinery(m);
+    } else {
+        ctx.require_classes("miri.transition-cover", &["miri-clean"]);
+    }
 }
